@@ -313,6 +313,7 @@ func c20(r *core.Run) {
 		hog = nil
 		e.app.NoFile = 1024
 	}
+	var postCfg *obs
 	reconf := e.w.Spawn(e.app, "reconfigurer", func() {
 		for i := range steps {
 			s := &steps[i]
@@ -333,6 +334,11 @@ func c20(r *core.Run) {
 				e.w.Yield(&sched.Op{Kind: "window-close", Path: ""})
 				closeWindow()
 			}
+		}
+		if !curAuto {
+			// the final mode is manual: from here on nothing but an explicit
+			// Refresh() may change what the cache answers
+			postCfg = observeFirst(e.cache, nil, "ListDevices", false)
 		}
 	})
 	tasks := []*sched.Task{reconf}
@@ -419,6 +425,9 @@ func c20(r *core.Run) {
 		}
 		return p
 	}
+	// a client may use any one kind of query alone (see queryKinds)
+	first := queryKinds[src.Intn(len(queryKinds))]
+	r.Knob("first_query", first)
 	app2 := e.w.NewProc("app2", memfs.Cred{})
 	freshObs := func(label string) (*obs, map[string]string, []string) {
 		var o *obs
@@ -426,8 +435,8 @@ func c20(r *core.Run) {
 		var dirs []string
 		e.doIn(app2, "fresh-"+label, func() {
 			fc, _ := cdi.NewCache(cdi.WithSpecDirs(curDirs...), cdi.WithAutoRefresh(curAuto))
-			_ = observe(fc, probeNames(truthOf()))
-			o = observe(fc, probeNames(truthOf()), curAuto)
+			touch(fc, probeNames(truthOf()), first)
+			o = observeFirst(fc, probeNames(truthOf()), first, curAuto)
 			de = dirErrs(fc)
 			dirs = fc.GetSpecDirectories()
 			_ = fc.Configure(cdi.WithAutoRefresh(false)) // release its watcher
@@ -439,16 +448,24 @@ func c20(r *core.Run) {
 	// manual mode "behaves like a new cache" is observable after an explicit
 	// Refresh(): both caches then reflect the same disk.
 	if !curAuto {
+		if postCfg != nil {
+			var now *obs
+			e.do("queries-0", func() { now = observeFirst(e.cache, nil, "ListDevices", false) })
+			if d := diffObs(now, postCfg); d != "" {
+				parts := strings.SplitN(d, "|", 2)
+				r.Failf("auto-refresh-still-active", "changed-by-itself/"+parts[0], "auto-refresh is disabled by the final options and Refresh() was not called, yet the answers of the cache changed after the last Configure returned (now vs right after it): %s", parts[1])
+			}
+		}
 		e.do("Refresh-0", func() { _ = e.cache.Refresh() })
 	}
-	e.do("queries-1", func() { _ = observe(e.cache, probeNames(truth)) })
+	e.do("queries-1", func() { touch(e.cache, probeNames(truth), first) })
 	e.w.Quiesce()
 	r.CheckHealth("after the first query round")
 	var got *obs
 	var gotDirErrs map[string]string
 	var gotDirs []string
 	e.do("queries-2", func() {
-		got = observe(e.cache, probeNames(truth), curAuto)
+		got = observeFirst(e.cache, probeNames(truth), first, curAuto)
 		gotDirErrs = dirErrs(e.cache)
 		gotDirs = e.cache.GetSpecDirectories()
 	})
@@ -563,10 +580,10 @@ func c20(r *core.Run) {
 	r.CheckHealth("after the probe change")
 	truth2 := truthOf()
 	if curAuto {
-		e.do("queries-3", func() { _ = observe(e.cache, probeNames(truth2)) })
+		e.do("queries-3", func() { touch(e.cache, probeNames(truth2), first) })
 		e.w.Quiesce()
 		var got2 *obs
-		e.do("queries-4", func() { got2 = observe(e.cache, probeNames(truth2), true) })
+		e.do("queries-4", func() { got2 = observeFirst(e.cache, probeNames(truth2), first, true) })
 		want2, _, _ := freshObs("b")
 		if d := diffObs(got2, want2); d != "" {
 			parts := strings.SplitN(d, "|", 2)
@@ -574,14 +591,14 @@ func c20(r *core.Run) {
 		}
 	} else {
 		var got2 *obs
-		e.do("queries-3", func() { got2 = observe(e.cache, probeNames(truth)) })
+		e.do("queries-3", func() { got2 = observeFirst(e.cache, probeNames(truth), first, false) })
 		if d := diffObs(got2, preProbe); d != "" && nprobe > 0 {
 			parts := strings.SplitN(d, "|", 2)
 			r.Failf("auto-refresh-still-active", parts[0], "auto-refresh is disabled by the final options, yet without Refresh() the queries changed after a directory change: %s", parts[1])
 		}
 		e.do("Refresh", func() { _ = e.cache.Refresh() })
 		var got3 *obs
-		e.do("queries-4", func() { got3 = observe(e.cache, probeNames(truth2)) })
+		e.do("queries-4", func() { got3 = observeFirst(e.cache, probeNames(truth2), first, false) })
 		want3, _, _ := freshObs("c")
 		if d := diffObs(got3, want3); d != "" {
 			parts := strings.SplitN(d, "|", 2)
